@@ -765,8 +765,10 @@ package pokertable
 //@   requires te != nil && te.table != nil && St(te) != nil && St(te).BlindState != nil && 0 <= len(PS(te)) && len(PS(te)) <= 10
 //@   requires forall(i, 0, 10, i < len(PS(te)) ==> PS(te)[i] != nil)
 //@   requires 0 <= len(alivePlayers) && len(alivePlayers) <= 10 && forall(i, 0, 10, i < len(alivePlayers) ==> alivePlayers[i] != nil)
+//@   requires forall(i, 0, 10, forall(j, 0, 10, i < j && j < len(alivePlayers) ==> alivePlayers[i].PlayerID != alivePlayers[j].PlayerID))
 //@   requires ref(te.ogm) != 0 && typeis(te.ogm, "*open_game_manager.openGameManager") && OgmWF(te.ogm)
 //@   modifies St(te).Status, te.ogm.state.GameCount, te.ogm.state.Participants, te.table.UpdateAt, te.table.UpdateSerial, log
+//@   ensures status-only-to-pausing: St(te).Status == TableStateStatus_TablePausing || unchanged(St(te).Status)
 //@   ensures closed-or-released-stays-put: old(St(te).Status) == TableStateStatus_TableClosed || te.isReleased ==> unchanged(St(te).Status) && noCall()
 //@   ensures pauses-iff-break-or-too-few: !(old(St(te).Status) == TableStateStatus_TableClosed || te.isReleased) ==>
 //@             (St(te).Status == TableStateStatus_TablePausing <==> St(te).BlindState.Level == -1 || cnt(i, 0, 10, i < len(PS(te)) && PS(te)[i].Bankroll > 0) < te.table.Meta.TableMinPlayerCount
@@ -778,3 +780,30 @@ package pokertable
 //@             && cnt(i, 0, 10, i < len(PS(te)) && PS(te)[i].Bankroll > 0) >= te.table.Meta.TableMinPlayerCount && old(St(te).Status) == TableStateStatus_TableGameStandby
 //@             && cnt(i, 0, 10, i < len(PS(te)) && PS(te)[i].IsIn && PS(te)[i].Bankroll > 0) >= 2
 //@             ==> len(te.ogm.state.Participants) >= 2
+
+//@ spec seatOfPlayer(te, i) = PS(te)[i].Seat
+//@ spec zeroStats(g) = g.ActionTimes == 0 && g.RaiseTimes == 0 && g.CallTimes == 0 && g.CheckTimes == 0 && !g.IsFold && g.FoldRound == ""
+//@     && !g.IsVPIPChance && !g.IsVPIP && !g.IsPFRChance && !g.IsPFR && !g.IsATSChance && !g.IsATS && !g.Is3BChance && !g.Is3B && !g.IsFt3BChance && !g.IsFt3B
+//@     && !g.IsCheckRaiseChance && !g.IsCheckRaise && !g.IsCBetChance && !g.IsCBet && !g.IsFtCBChance && !g.IsFtCB && !g.ShowdownWinningChance && !g.IsShowdownWinning
+
+//@ func NewPlayerGameStatistics
+//@   inline
+
+//@ func (*tableEngine).continueGame
+//@   property C05 C07 C08 C14 C15
+//@   returns err
+//@   config M 2..10 : te.table.Meta.TableMaxSeatCount = M, te.sm.MaxSeat = M, len(te.sm.SeatData) = M
+//@   requires TableWF(te) && Coupled(te) && St(te).BlindState != nil && te.options != nil
+//@   requires 0 <= len(alivePlayers) && len(alivePlayers) <= 10 && forall(i, 0, 10, i < len(alivePlayers) ==> alivePlayers[i] != nil)
+//@   requires forall(i, 0, 10, forall(j, 0, 10, i < j && j < len(alivePlayers) ==> alivePlayers[i].PlayerID != alivePlayers[j].PlayerID))
+//@   requires ref(te.ogm) != 0 && typeis(te.ogm, "*open_game_manager.openGameManager") && OgmWF(te.ogm)
+//@   modifies St(te).Status, St(te).GamePlayerIndexes, St(te).NextBBOrderPlayerIDs, St(te).CurrentActionEndAt, St(te).GameState, St(te).LastPlayerGameAction,
+//@            forall(i, 0, 10, PS(te)[i].Positions), forall(i, 0, 10, PS(te)[i].GameStatistics), forall(i, 0, 10, PS(te)[i].IsParticipated),
+//@            forall(s, 0, M, te.sm.SeatData[s].HasChips), te.ogm.state.GameCount, te.ogm.state.Participants, te.table.UpdateAt, te.table.UpdateSerial, log
+//@   loop 0 unroll 10
+//@   ensures standby-or-paused: St(te).Status == TableStateStatus_TableGameStandby || St(te).Status == TableStateStatus_TablePausing || err != nil
+//@   ensures per-hand-fields-reset: err == nil ==> len(GPI(te)) == 0 && len(St(te).NextBBOrderPlayerIDs) == 0 && St(te).CurrentActionEndAt == 0 && St(te).GameState == nil && LPA(te) == nil
+//@   ensures labels-and-stats-cleared: err == nil ==> forall(i, 0, 10, i < len(PS(te)) ==> len(PS(te)[i].Positions) == 0 && zeroStats(PS(te)[i].GameStatistics))
+//@   ensures has-chips-refreshed: err == nil ==> forall(i, 0, 10, i < len(PS(te)) ==> (te.sm.SeatData[PS(te)[i].Seat].HasChips <==> PS(te)[i].Bankroll > 0))
+//@   ensures eligibility-mirrored: err == nil ==> forall(i, 0, 10, i < len(PS(te)) ==> (PS(te)[i].IsParticipated <==> ActiveAt(te.sm, PS(te)[i].Seat)))
+//@   ensures inv: TableWF(te) && Coupled(te)
